@@ -56,10 +56,11 @@ def run(ctx):
     # bound of a delivery composes with C08 (send completes in a bounded number of its own steps with
     # every other channel operation paused anywhere) - its cone and its step monitors are part of C03
     import ls_channel as LC
-    ctx.harness(['ls_channel'])
+    ctx.harness(['ls_channel', 'p_nested'])
     if ctx.translate(['channel']):
         ctx.prove_dep('props/C08.v', 'a delivery runs Channel::send (WithRawSiginfo / WithOrigin exfiltration)')
     LC.lockstep(ctx, [LC.mon_c08])
+    LC.nested_sweep(ctx, ('panic', 'hang'))
     ctx.coverage['rule'] = ('lock-step scenarios as C01 (a delivery arriving at every boundary of register/unregister/unregister_signal and of other deliveries); '
                             'monitors: operation kinds of delivery activities, no failed/blocked step, step count <= 10 + #actions, '
                             'allocator wrapper = 0 allocations/releases inside deliveries; plus one real dispatch with all built-in actions on full pipes')
@@ -68,6 +69,9 @@ def run(ctx):
 def replay(ctx, path):
     case = json.load(open(path))
     sc = case.get('case', {}).get('scenario')
+    if case.get('case', {}).get('nested') or (sc and sc.get('system') == 'channel'):
+        import ls_channel as LC
+        return LC.replay_case(ctx, path, [LC.mon_c08])
     if not sc:
         print(json.dumps(case, indent=1)[:3000])
         return 1
